@@ -10,6 +10,7 @@
 From Coq Require Import List ZArith NArith Bool String.
 From Verif Require gen.GenTables c09.Lexer c08.LR c08.LRCheck.
 From Verif Require Import integ.NoCrash.
+From Verif Require c08.Flags c08.Utf8Dec c08.Preview c12.Encode c12.JsonRef integ.EncodeStringAgree.
 From Verif Require props.C08.
 Import ListNotations.
 
@@ -61,6 +62,22 @@ Proof.
    (conj (FlagsProofs.parse_flags_total GenFlagTable.flag_table) Hs))))))).
 Qed.
 Print Assumptions C08_full_modulo_compiler_vm_cli.
+
+(* the two independent models of encoder.go encodeString — c08/Preview.v (Go ints, explicit slicing, Panic sites, fuel)
+   and c12/Encode.v (lists) with their two different UTF-8 decoder models — compute the same bytes for EVERY byte string:
+   the C08 "never slices out of range, terminates" and the C12 "JSON string literal / valid UTF-8 / reads back as sanitize s"
+   theorems are about the same function *)
+Theorem C08_C12_encode_string_models_agree : forall s : list N, Forall (fun b => (b < 256)%N) s ->
+  Preview.enc_string Utf8Dec.decode_rune s = LR.Ok (Encode.encode_string s).
+Proof. exact EncodeStringAgree.enc_string_agree. Qed.
+Print Assumptions C08_C12_encode_string_models_agree.
+
+(* ... and so are the two UTF-8 decoder models, through Unicode Table 3-7 *)
+Theorem C08_decoder_is_table_3_7 : forall b0 r, (128 <= b0)%N ->
+  Utf8Dec.decode_rune (b0 :: r) =
+  match JsonRef.utf8_step (b0 :: r) with None => (false, 1%nat) | Some (_, n) => (true, n) end.
+Proof. exact DecoderAgree.c08_dec_step. Qed.
+Print Assumptions C08_decoder_is_table_3_7.
 
 (* non-vacuity: `.foo|bar` is lexed to tokIndex '|' tokIdent eof; with the real constants for the two named kinds
    involved the driver accepts, with a deliberately wrong numbering (every name -> 1) it rejects — and does not panic *)
